@@ -1,7 +1,7 @@
 #!/bin/bash
 # usage: seedtest.sh <patch.diff> <PROP> [extra vfcheck args]
 # applies a seeded defect to /repo, runs the property's check (no evidence written), reverts.
-P=$1; PROP=$2; shift 2
+P=$(readlink -f "$1"); PROP=$2; shift 2
 cd /verif && . ./env.sh
 if ! git -C /repo diff --quiet; then echo "REPO DIRTY"; exit 2; fi
 [ -f "${P%.diff}.rebased.diff" ] && P="${P%.diff}.rebased.diff"
